@@ -234,6 +234,9 @@ pub fn run_cli(sc: &Scenario, renderer: &str) -> Observation {
     let _ = std::fs::create_dir_all(&tmp_root);
     if sc.cli.work_directory {
         let _ = std::fs::create_dir_all(&work);
+        // something of the user's that must survive the run
+        let _ = std::fs::write(work.join("users-own-file.txt"), b"keep me\n");
+        let _ = std::fs::create_dir_all(work.join("users-own-dir"));
     }
     let mut info = CliInfo {
         tmp_root: tmp_root.to_string_lossy().into_owned(),
@@ -334,7 +337,13 @@ pub fn run_cli(sc: &Scenario, renderer: &str) -> Observation {
             .collect();
         dirs.sort();
         dirs.dedup();
-        args.extend(dirs);
+        // the scan is recursive: only the outermost directories are given
+        let outer: Vec<String> = dirs
+            .iter()
+            .filter(|d| !dirs.iter().any(|o| o != *d && d.starts_with(&format!("{}/", o))))
+            .cloned()
+            .collect();
+        args.extend(outer);
     } else {
         for d in sc.docs.iter().filter(|d| d.main) {
             args.push(info.doc_path[&d.path].clone());
